@@ -7,6 +7,7 @@
 #include "counting.h"
 #include "tabledata.h"
 #include "trace.h"
+#include <sstream>
 #include <nano/dataset.h>
 #include <nano/dataset/iterator.h>
 #include <nano/generator/elemwise_identity.h>
@@ -927,6 +928,109 @@ int main(int argc, char** argv)
             vt::put(vt::J("Generic").s("fn", id).i("dims", f->size()).b("convex", f->convex()).b("smooth", f->smooth()).b("gradOK", o.gradOK).b("differentiable", o.differentiable)
                         .b("convexOK", o.convexOK).b("strongOK", o.strongOK).b("valueOnlySame", o.valueSame).i("graderr_e12", static_cast<int64_t>(std::min(o.graderr * 1e12, 2e9)))
                         .i("case", kase));
+        }
+    }
+    // (6) structured points of the registered convex prototypes: small integer lattices (all points for 1..3 dimensions) and sign patterns
+    // c (+-1, .., +-1) in higher dimensions, where the pieces of max-type functions tie EXACTLY; z = x moved along one or two axes. The vector
+    // returned at a tie must still be a sub-gradient (the convexity clause quantifies over all x and z). One record per (prototype, dimension).
+    for (const auto& id : fun_ids)
+    {
+        for (const tensor_size_t dims : {tensor_size_t{1}, tensor_size_t{2}, tensor_size_t{3}, tensor_size_t{4}, tensor_size_t{7}})
+        {
+            rfunction_t f;
+            try
+            {
+                f = function_t::all().get(id)->make(dims, 10);
+            }
+            catch (const std::exception&)
+            {
+                continue;
+            }
+            if (!f || !f->convex() || f->size() != dims)
+            {
+                continue;
+            }
+            std::vector<vector_t> points;
+            if (dims <= 3)
+            {
+                int64_t total = 1;
+                for (tensor_size_t i = 0; i < dims; ++i)
+                {
+                    total *= 7;
+                }
+                for (int64_t k = 0; k < total; ++k)
+                {
+                    vector_t x(dims);
+                    auto     r = k;
+                    for (tensor_size_t i = 0; i < dims; ++i, r /= 7)
+                    {
+                        x(i) = static_cast<scalar_t>(r % 7 - 3);
+                    }
+                    points.push_back(x);
+                }
+            }
+            else
+            {
+                for (int k = 0; k < 200; ++k)
+                {
+                    vector_t   x(dims);
+                    const auto c = rng.pick(std::vector<scalar_t>{0.5, 1.0, 2.0, 3.0});
+                    for (tensor_size_t i = 0; i < dims; ++i)
+                    {
+                        x(i) = k % 2 == 0 ? c * (rng.coin() ? 1.0 : -1.0) : static_cast<scalar_t>(rng.range(-3, 3));
+                    }
+                    points.push_back(x);
+                }
+            }
+            int64_t     checked = 0, failed = 0;
+            std::string first;
+            vector_t    g(dims), z(dims);
+            for (const auto& x : points)
+            {
+                const auto fx = f->vgrad(x, g);
+                if (!std::isfinite(fx) || !g.all_finite())
+                {
+                    continue;
+                }
+                for (tensor_size_t i = 0; i < dims; ++i)
+                {
+                    for (const auto step : {-1.0, -0.1, 0.1, 1.0})
+                    {
+                        for (const tensor_size_t j : {i, (i + 1) % dims})
+                        {
+                            z    = x;
+                            z(i) += step;
+                            if (j != i)
+                            {
+                                z(j) -= step;
+                            }
+                            const auto fz = f->vgrad(z);
+                            if (!std::isfinite(fz))
+                            {
+                                continue;
+                            }
+                            const auto dz  = z - x;
+                            const auto rhs = fx + g.dot(dz) + 0.5 * f->strong_convexity() * dz.squaredNorm();
+                            const auto tol = 1e-9 * (1.0 + std::fabs(fx) + std::fabs(fz) + std::fabs(g.dot(dz)) + f->strong_convexity() * dz.squaredNorm());
+                            ++checked;
+                            if (!(fz >= rhs - tol))
+                            {
+                                if (failed++ == 0)
+                                {
+                                    std::ostringstream o;
+                                    o.precision(17);
+                                    o << "x=(" << x.transpose() << ") g=(" << g.transpose() << ") z=(" << z.transpose() << ") f(x)=" << fx << " f(z)=" << fz
+                                      << " f(x)+g.(z-x)=" << rhs;
+                                    first = o.str();
+                                }
+                            }
+                        }
+                    }
+                }
+            }
+            vt::put(vt::J("Generic").s("fn", id + "@lattice").i("dims", dims).b("convex", true).b("smooth", f->smooth()).b("gradOK", true).b("differentiable", false)
+                        .b("convexOK", failed == 0).b("strongOK", failed == 0).b("valueOnlySame", true).i("graderr_e12", 0).i("case", -2).i("pairs", checked)
+                        .i("failed", failed).s("first", first));
         }
     }
     vt::put(vt::J("Done").i("case", -1));
